@@ -119,6 +119,26 @@ fn alnum_ident() -> BoxedStrategy<String> {
 fn build_ident() -> BoxedStrategy<String> {
     prop_oneof![3 => "[0-9A-Za-z-]{1,8}", 1 => "0[0-9]{1,5}", 1 => num_ident(), 2 => gens::text::realistic_ident()].boxed()
 }
+/// version-like strings as calendar versioning writes them: years, zero-padded months and days,
+/// two to four parts - most are NOT SemVer (leading zeros, part count); the oracle decides
+pub fn calver_like() -> BoxedStrategy<String> {
+    let year = gens::pick(&["1999", "2000", "2024", "2026", "2100", "24", "0024", "3024"]);
+    let mm = prop_oneof![(1u32..13).prop_map(|m| format!("{m:02}")), (1u32..13).prop_map(|m| m.to_string()), gens::pick(&["00", "13", "001"]).prop_map(String::from)];
+    let dd = prop_oneof![(1u32..32).prop_map(|d| format!("{d:02}")), (1u32..32).prop_map(|d| d.to_string()), gens::pick(&["00", "015"]).prop_map(String::from)];
+    (any::<bool>(), year, mm, proptest::option::weighted(0.8, dd), proptest::option::weighted(0.3, 0u32..50), gens::pick(&["", "-rc.1", "-alpha", "+build.5", "-rc.1+build.5", ".post1", "a1"]))
+        .prop_map(|(v, y, m, d, extra, tail)| {
+            let mut s = format!("{}{y}.{m}", if v { "v" } else { "" });
+            if let Some(d) = d {
+                s.push_str(&format!(".{d}"));
+            }
+            if let Some(e) = extra {
+                s.push_str(&format!(".{e}"));
+            }
+            s.push_str(tail);
+            s
+        })
+        .boxed()
+}
 pub fn valid_semver() -> BoxedStrategy<String> {
     (
         any::<bool>(),
@@ -200,7 +220,7 @@ pub fn property() -> Property {
     let r1 = RandomSub::<String>::new(
         "grammar-mutants",
         (60_000, 1_500_000),
-        |_| prop_oneof![2 => valid_semver(), 3 => mutate(valid_semver()), 1 => mutate(mutate(valid_semver()))].boxed(),
+        |_| prop_oneof![4 => valid_semver(), 6 => mutate(valid_semver()), 2 => mutate(mutate(valid_semver())), 2 => calver_like()].boxed(),
         check_one,
     )
     .floor(0.3);
@@ -231,7 +251,7 @@ pub fn property() -> Property {
     )
     .floor(0.3);
     // L2: the real binary gives the same verdict (exit status) and report
-    let report = RandomSub::<String>::new("check-report", (60_000, 1_200_000), |_| prop_oneof![3 => valid_semver(), 2 => mutate(valid_semver())].boxed(), check_report).floor(0.1);
+    let report = RandomSub::<String>::new("check-report", (60_000, 1_200_000), |_| prop_oneof![3 => valid_semver(), 2 => mutate(valid_semver()), 1 => calver_like()].boxed(), check_report).floor(0.1);
     let l2 = RandomSub::<String>::new(
         "cli-check",
         (400, 6_000),
